@@ -538,6 +538,10 @@ class ExprBuilder:
         if not proj:
             return base
         if base[0] in ("place", "arg"):
+            own = place_to_str(fn, local, [])
+            if base[0] == "place" and base[1] != own and own.startswith("_") and not base[1].startswith("_") and proj and proj[0]["k"] != "deref":
+                # an unnamed temporary that merely holds a named variable: project the variable
+                return ("place", _norm_self(base[1] + proj_str(proj)), p["ty"])
             return ("place", fn.place_str(p), p["ty"])
         # projection through a reference to a place: `(*_4).f` with _4 = &self.x
         e = base
